@@ -43,9 +43,13 @@ def gen_script(rng, tier):
     add({"sql": "create table u(k int, v int)"}, "ddl")
     akeys = []
     nexta = [0]
+    dupkeys = pk and rng.random() < 0.3      # runs of equal key values (key uniqueness is not enforced): they straddle block boundaries
 
     def row():
-        if pk:
+        if pk and dupkeys:
+            nexta[0] += rng.choice([0, 0, 0, 0, 1, 2])
+            a = nexta[0]
+        elif pk:
             nexta[0] += rng.randint(1, 3)
             a = nexta[0] * rng.choice([1, 1, 1, -1])
         else:
